@@ -215,16 +215,40 @@ func runR191(c *Ctx) {
 	c.Check(okOut, name, "unpatch-out", c.Pos(fm.Pos()), "every digest a backend reports missing is translated back by that backend's patcher", "digests reported missing are not translated back through the UnpatchDigest of the partition that was asked")
 	// getBackend failure rejects the whole call
 	okRej := false
-	allInstrs(fm, func(ins ssa.Instruction) {
-		cl, ok := ins.(*ssa.Call)
-		if !ok || !callsRecvFieldValue(fm, cl.Common(), "getBackend") {
-			return
+	propagates := func(g *ssa.Function, cl *ssa.Call) bool {
+		ei := errIndex(g)
+		if ei < 0 {
+			return false
 		}
-		for _, r := range returnsOf(fm) {
-			if isErrResultOf(r.Results[1], cl) {
-				okRej = true
+		for _, r := range returnsOf(g) {
+			if isErrResultOf(returnedValue(r, ei), cl) {
+				return true
 			}
 		}
+		return false
+	}
+	withOwnHelpers(fm, func(g *ssa.Function) {
+		allInstrs(g, func(ins ssa.Instruction) {
+			cl, ok := ins.(*ssa.Call)
+			if !ok || !callsRecvFieldValue(g, cl.Common(), "getBackend") {
+				return
+			}
+			if g == fm {
+				if propagates(fm, cl) {
+					okRej = true
+				}
+				return
+			}
+			// in a helper: the helper returns the error, and FindMissing returns the helper's
+			if !propagates(g, cl) {
+				return
+			}
+			allInstrs(fm, func(i2 ssa.Instruction) {
+				if hc, ok := i2.(*ssa.Call); ok && hc.Call.StaticCallee() == g && propagates(fm, hc) {
+					okRej = true
+				}
+			})
+		})
 	})
 	c.Check(okRej, name, "unknown-rejected", c.Pos(fm.Pos()), "an unknown instance name fails the call", "an unknown instance name does not fail FindMissing")
 }
